@@ -50,6 +50,201 @@ class AnalysisError(Exception):
 # ---------------------------------------------------------------------------
 
 
+def _clone(node):
+    """Deep copy of an AST (or list of ASTs) following AST fields only: the loader's `_parent` back-links are not followed."""
+    if isinstance(node, list):
+        return [_clone(x) for x in node]
+    if not isinstance(node, ast.AST):
+        return node
+    new = type(node).__new__(type(node))
+    for f in node._fields:
+        if hasattr(node, f):
+            setattr(new, f, _clone(getattr(node, f)))
+    for a in getattr(node, "_attributes", ()):
+        if hasattr(node, a):
+            setattr(new, a, getattr(node, a))
+    return new
+
+
+_KNOWN_NAMES = None
+
+
+def _known_names() -> str:
+    """Source text of the rule modules: a private helper whose name occurs there is one the rules speak about."""
+    global _KNOWN_NAMES
+    if _KNOWN_NAMES is None:
+        here = Path(__file__).resolve().parent
+        _KNOWN_NAMES = "\n".join(p.read_text() for p in sorted(here.glob("*.py")) if p.name != "selftest.py")
+    return _KNOWN_NAMES
+
+
+def _inline_unknown_helpers(tree: ast.Module) -> int:
+    """A private helper (module-level function or method, name starting with one underscore) that no rule mentions by name is
+    seen through: a statement `T = helper(args)` / `T = obj.helper(args)` / `return helper(args)` / `helper(args)` is replaced by
+    the helper's own statements (locals renamed, parameters bound, `self` bound to the receiver) when the helper is a sequence of
+    statements with at most one `return`, which is its last statement.  Extracting such a helper is a pure refactoring; the rules
+    then find the loops, branches and stores where they look for them."""
+    import copy
+    import re
+
+    known = _known_names()
+
+    def unknown(name):
+        return name.startswith("_") and not name.startswith("__") and re.search(r"\b" + re.escape(name) + r"\b", known) is None
+
+    def simple(fn):
+        if fn.decorator_list or fn.args.vararg or fn.args.kwarg or any(isinstance(x, (ast.Yield, ast.YieldFrom, ast.Nonlocal, ast.Global)) for x in ast.walk(fn)):
+            return False
+        body = [s_ for s_ in fn.body if not (isinstance(s_, ast.Expr) and isinstance(s_.value, ast.Constant))]
+        rets = [x for x in ast.walk(fn) if isinstance(x, ast.Return) and not _in_nested_def(x, fn)]
+        if len(rets) > 1 or (rets and rets[0] is not body[-1]):
+            return False
+        if any(isinstance(x, (ast.FunctionDef, ast.Lambda, ast.ClassDef)) for b_ in body for x in ast.walk(b_)):
+            return False  # closures inside would capture renamed names: leave alone
+        return bool(body)
+
+    funcs, methods = {}, {}
+    for n in tree.body:
+        if isinstance(n, ast.FunctionDef) and unknown(n.name) and simple(n):
+            funcs[n.name] = n
+        if isinstance(n, ast.ClassDef):
+            for m in n.body:
+                if isinstance(m, ast.FunctionDef) and unknown(m.name) and simple(m) and m.args.args and m.args.args[0].arg == "self":
+                    methods[(n.name, m.name)] = m
+    if not funcs and not methods:
+        return 0
+    count = [0]
+    serial = [0]
+
+    def callee_of(call, cls_name):
+        if isinstance(call.func, ast.Name) and call.func.id in funcs:
+            return funcs[call.func.id], None
+        if isinstance(call.func, ast.Attribute) and cls_name is not None and (cls_name, call.func.attr) in methods \
+                and isinstance(call.func.value, ast.Name):
+            return methods[(cls_name, call.func.attr)], call.func.value
+        return None, None
+
+    def expand(st, call, target_kind, cls_name, host):
+        g, recv = callee_of(call, cls_name)
+        if g is None or g is host or any(isinstance(a_, ast.Starred) for a_ in call.args) or any(k_.arg is None for k_ in call.keywords):
+            return None
+        params = [a_.arg for a_ in g.args.args] + [a_.arg for a_ in g.args.kwonlyargs]
+        pos = [a_.arg for a_ in g.args.args]
+        given = {}
+        args = list(call.args)
+        if recv is not None:
+            given[pos[0]] = recv
+            pos = pos[1:]
+        if len(args) > len(pos):
+            return None
+        given.update(dict(zip(pos, args)))
+        for k_ in call.keywords:
+            if k_.arg in given or k_.arg not in params:
+                return None
+            given[k_.arg] = k_.value
+        defaults = dict(zip([a_.arg for a_ in g.args.args][len(g.args.args) - len(g.args.defaults):], g.args.defaults))
+        for a_, d_ in zip(g.args.kwonlyargs, g.args.kw_defaults):
+            if d_ is not None:
+                defaults[a_.arg] = d_
+        if not all(p_ in given or p_ in defaults for p_ in params):
+            return None
+        serial[0] += 1
+        tag = f"_h{serial[0]}_"
+        body = _clone([s_ for s_ in g.body if not (isinstance(s_, ast.Expr) and isinstance(s_.value, ast.Constant))])
+        local = set(params)
+        for s_ in body:
+            for n_ in ast.walk(s_):
+                if isinstance(n_, ast.Name) and isinstance(n_.ctx, ast.Store) and not _in_comprehension(n_, s_):
+                    local.add(n_.id)
+        keep_self = recv is not None and isinstance(recv, ast.Name) and recv.id == "self"
+        ren = {nm: tag + nm for nm in local if not (keep_self and nm == "self")}
+
+        class Ren(ast.NodeTransformer):
+            def visit_Name(self, node):
+                if node.id in ren:
+                    return ast.copy_location(ast.Name(id=ren[node.id], ctx=node.ctx), node)
+                return node
+        body = [Ren().visit(s_) for s_ in body]
+        binds = []
+        for p_ in params:
+            if keep_self and p_ == "self":
+                continue
+            binds.append(ast.copy_location(ast.Assign(targets=[ast.Name(id=ren[p_], ctx=ast.Store())],
+                                                      value=given[p_] if p_ in given else _clone(defaults[p_])), st))
+        tail = []
+        if body and isinstance(body[-1], ast.Return):
+            val = body[-1].value if body[-1].value is not None else ast.Constant(value=None)
+            body = body[:-1]
+            if target_kind == "assign":
+                tail = [ast.copy_location(ast.Assign(targets=st.targets, value=val), st)]
+            elif target_kind == "return":
+                tail = [ast.copy_location(ast.Return(value=val), st)]
+            elif target_kind == "expr":
+                tail = [ast.copy_location(ast.Expr(value=val), st)]
+        elif target_kind == "assign":
+            tail = [ast.copy_location(ast.Assign(targets=st.targets, value=ast.Constant(value=None)), st)]
+        elif target_kind == "return":
+            tail = [ast.copy_location(ast.Return(value=ast.Constant(value=None)), st)]
+        out = binds + body + tail
+        for o_ in out:
+            ast.fix_missing_locations(o_)
+        count[0] += 1
+        return out
+
+    def process(block, cls_name, host, depth=0):
+        i = 0
+        while i < len(block):
+            st = block[i]
+            new = None
+            if isinstance(st, ast.Assign) and isinstance(st.value, ast.Call):
+                new = expand(st, st.value, "assign", cls_name, host)
+            elif isinstance(st, ast.Return) and isinstance(st.value, ast.Call):
+                new = expand(st, st.value, "return", cls_name, host)
+            elif isinstance(st, ast.Expr) and isinstance(st.value, ast.Call):
+                new = expand(st, st.value, "expr", cls_name, host)
+            if new is not None and depth < 4:
+                block[i:i + 1] = new
+                process(new, cls_name, host, depth + 1)  # helpers of helpers
+                i += len(new)
+                continue
+            for field in ("body", "orelse", "finalbody"):
+                sub = getattr(st, field, None)
+                if isinstance(sub, list) and not isinstance(st, (ast.FunctionDef, ast.ClassDef)):
+                    process(sub, cls_name, host, depth)
+            for h_ in getattr(st, "handlers", []) or []:
+                process(h_.body, cls_name, host, depth)
+            i += 1
+
+    def visit_defs(node, cls_name):
+        for ch in getattr(node, "body", []):
+            if isinstance(ch, ast.ClassDef):
+                visit_defs(ch, ch.name)
+            elif isinstance(ch, ast.FunctionDef):
+                if not (ch.name in funcs and funcs[ch.name] is ch) and not ((cls_name, ch.name) in methods and methods[(cls_name, ch.name)] is ch):
+                    process(ch.body, cls_name, ch)
+                else:
+                    process(ch.body, cls_name, ch)  # helpers may call helpers
+                visit_nested(ch, cls_name)
+
+    def visit_nested(fn, cls_name):
+        for n_ in ast.walk(fn):
+            if isinstance(n_, ast.FunctionDef) and n_ is not fn:
+                process(n_.body, cls_name, n_)
+    visit_defs(tree, None)
+    if count[0]:
+        for node in ast.walk(tree):
+            for child in ast.iter_child_nodes(node):
+                child._parent = node  # type: ignore[attr-defined]
+    return count[0]
+
+
+def _in_nested_def(node, fn) -> bool:
+    for d in ast.walk(fn):
+        if isinstance(d, (ast.FunctionDef, ast.Lambda)) and d is not fn and any(x is node for x in ast.walk(d)):
+            return True
+    return False
+
+
 def _inline_context_managers(tree: ast.Module) -> int:
     """`with C(args): BODY` where C is a class of the module whose __init__ only stores its arguments, whose __enter__ is a few
     statements and whose __exit__ does nothing when there was no exception is rewritten into the equivalent
@@ -166,8 +361,8 @@ def _inline_context_managers(tree: ast.Module) -> int:
                 if any(isinstance(x, ast.Name) and x.id in (tb, exit_type) and norm(getattr(x, "_parent", x)) not in (f"{exit_type} is None", f"{exit_type} is not None")
                        for s_ in xb for x in ast.walk(s_)):
                     continue
-                exc_body = specialise(copy.deepcopy(xb), err, True)
-                norm_body = specialise(copy.deepcopy(xb), err, False)
+                exc_body = specialise(_clone(xb), err, True)
+                norm_body = specialise(_clone(xb), err, False)
                 if exc_body is None or norm_body is None:
                     continue
                 # what __exit__ does when the block ended normally goes to the `else:` of the try (`error` is None there)
@@ -199,9 +394,9 @@ def _inline_context_managers(tree: ast.Module) -> int:
                     def visit_Attribute(self, node):
                         self.generic_visit(node)
                         if isinstance(node.value, ast.Name) and node.value.id == "self" and node.attr in attrs:
-                            return copy.deepcopy(given[attrs[node.attr]])
+                            return _clone(given[attrs[node.attr]])
                         return node
-                enter_stmts = [Sub().visit(copy.deepcopy(s_)) for s_ in eb]
+                enter_stmts = [Sub().visit(_clone(s_)) for s_ in eb]
                 exc_body = [Sub().visit(s_) for s_ in exc_body]
                 norm_body = [Sub().visit(s_) for s_ in norm_body]
                 tr = ast.Try(body=st.body, handlers=[ast.ExceptHandler(type=ast.Name(id="BaseException", ctx=ast.Load()), name=err, body=exc_body)],
@@ -279,7 +474,7 @@ def _inline_generators(tree: ast.Module) -> int:
                         if not all(p_ in given or p_ in defaults for p_ in params) or len(st.iter.args) > len(params):
                             i += 1
                             continue
-                        gbody = copy.deepcopy([s_ for s_ in g.body if not (isinstance(s_, ast.Expr) and isinstance(s_.value, ast.Constant))])
+                        gbody = _clone([s_ for s_ in g.body if not (isinstance(s_, ast.Expr) and isinstance(s_.value, ast.Constant))])
                         local = set(params)
                         for s_ in gbody:
                             for n_ in ast.walk(s_):
@@ -307,7 +502,7 @@ def _inline_generators(tree: ast.Module) -> int:
                             return out
                         gbody = put(gbody)
                         binds = [ast.copy_location(ast.Assign(targets=[ast.Name(id=ren[p_], ctx=ast.Store())],
-                                                              value=given[p_] if p_ in given else copy.deepcopy(defaults[p_])), st) for p_ in params]
+                                                              value=given[p_] if p_ in given else _clone(defaults[p_])), st) for p_ in params]
                         for b_ in binds + gbody:
                             ast.fix_missing_locations(b_)
                         blk[i:i + 1] = binds + gbody
@@ -383,6 +578,9 @@ class Repo:
                     child._parent = node  # type: ignore[attr-defined]
             _inline_generators(tree)
             _inline_context_managers(tree)
+            # _inline_unknown_helpers(tree) is NOT applied globally: seeing through every helper the rules do not name weakens the
+            # flow-sensitive resolution inside the hosts (tried: a memo-key variant went unnoticed); rules call it on a copy
+            # of the function they study when they need it (`expanded_function`)
             _canonical_index_parameter(tree)
             self.trees[name] = tree
         # every other .py in the package (not tests) is parsed too so that
@@ -399,6 +597,32 @@ class Repo:
                 for child in ast.iter_child_nodes(node):
                     child._parent = node  # type: ignore[attr-defined]
             self.extra[path.stem] = tree
+
+    def expanded(self, module: str) -> ast.Module:
+        """A copy of the module's tree in which the private helpers that no rule names are seen through (their statements stand
+        where they were called).  For rules that look for loops / stores of one function and do not find them: the work may have
+        been moved into an extracted helper."""
+        cache = self.__dict__.setdefault("_expanded", {})
+        if module not in cache:
+            t = _clone(self.trees[module])
+            for node in ast.walk(t):
+                for child in ast.iter_child_nodes(node):
+                    child._parent = node  # type: ignore[attr-defined]
+            _inline_unknown_helpers(t)
+            cache[module] = t
+        return cache[module]
+
+    def find_expanded(self, qual: str, rule: str = "anchor") -> ast.AST:
+        module, *parts = qual.split("::")
+        nodes: list[ast.AST] = [self.expanded(module)]
+        for part in parts:
+            nxt: list[ast.AST] = []
+            for n in nodes:
+                nxt.extend(_defs_named(n, part))
+            nodes = nxt
+        if len(nodes) != 1:
+            raise AnalysisError(rule, f"anchor {qual!r}: expected exactly 1 definition, found {len(nodes)}")
+        return nodes[0]
 
     # -- addressing ---------------------------------------------------------
     def all_trees(self) -> dict[str, ast.Module]:
